@@ -72,7 +72,7 @@ def keyVerdict (u : Uni) (k : Key) (md : Modes) (seqs : List PSeq) (dkTok : Stri
   match cursor with
   | some e => e
   | none =>
-    if XtermDomain k then
+    if XtermDomain u k then
       match seqs, parseKey? dkTok with
       | [_], some dk =>
         if decide (keyArrives u k dk) then "ok"
